@@ -17,6 +17,8 @@ CHECKS = {
          "PSL replaced by a compact model validated exhaustively against the real library each run; net/url agreement validated on 20000 sampled grammar URLs; engine; z3"),
  "C03": ("(a) patternToRegexp on symbolic patterns (1..3/4 bytes): no crash, output == token translation; (b) for every enumerated mask pattern (1..2/3 tokens over 22 tokens incl. all regexp metacharacters, || and /* forms, match-case on/off, plus seeded longer ones) and ALL URLs up to 10/14 printable bytes: compiled regexp accepts u <=> reference mask automaton accepts u (one solver query per pattern and length)",
          "regexp program encoded as bounded Pike-VM reachability (validated against MatchString each run); patterns enumerated concretely and parsed natively; D15 known finding excluded; engine; z3"),
+ "C04": ("NetworkRule.Match on rules produced by the real parser from the modifier grammar (every single modifier with every value set in every value order, seeded pairs and multi-modifier rules) against the documented semantics of each modifier, for a field-wise symbolic request (flags, one-hot type, DNS type, client name/IPv4/IPv6, sorted tags, source and request hosts of symbolic bytes plus PSL tails)",
+         "PSL model validated each run; parsed value lists cross-checked natively against the rule text; pattern conjunct fixed true; engine; z3"),
  "C16": ("unbounded in the fields the function reads (64-bit option word, 32-bit mask, exception flag fully symbolic under the parser's representation invariant); counterexamples replayed from rule text through the real parser",
          "InvRule on option words (validated natively on the repo's own rule corpus); go/ssa lowering; engine; z3"),
 }
